@@ -31,10 +31,10 @@ _INFO = {}
 
 # ------------------------------------------------------------------ pool and operations
 
-CX_ONLY = ['child_attrs(x)', 'child_attrs(n1)', 'child_attrs(n0)', 'child_attrs_all', 'child_attrs_noexc', 'subclass', 'append_field', 'insert_field',
+CX_ONLY = ['child_attrs(x)', 'child_attrs(n1)', 'child_attrs(n0)', 'child_attrs_all', 'child_attrs_all+n1', 'child_attrs_noexc', 'subclass', 'append_field', 'insert_field',
            'customize(type_name)']
 POOL_SIZE = {'full': 8, 'cx': 2, 'prim': 4}
-CX_OPS = ['customize(min_occurs=1)', 'customize(sub_name)', 'child_attrs(x)', 'child_attrs(n1)', 'child_attrs(n0)', 'child_attrs_all',
+CX_OPS = ['customize(min_occurs=1)', 'customize(sub_name)', 'child_attrs(x)', 'child_attrs(n1)', 'child_attrs(n0)', 'child_attrs_all', 'child_attrs_all+n1',
           'subclass', 'append_field', 'insert_field']
 
 
@@ -116,6 +116,9 @@ def operations(tier, cfg='full'):
     op('child_attrs(n1)', lambda m: is_complex(m) and 'n1' not in m.get_flat_type_info(m), lambda m: m.customize(child_attrs={'n1': dict(min_occurs=1)}), None)
     op('child_attrs(n0)', lambda m: is_complex(m) and 'n0' not in m.get_flat_type_info(m), lambda m: m.customize(child_attrs={'n0': dict(max_len=7)}), None)
     op('child_attrs_all', lambda m: is_complex(m), lambda m: m.customize(child_attrs_all=dict(nillable=False)), None)
+    # both kinds of delayed constraints asked for in one customisation
+    op('child_attrs_all+n1', lambda m: is_complex(m) and 'n1' not in m.get_flat_type_info(m),
+       lambda m: m.customize(child_attrs_all=dict(nillable=False), child_attrs={'n1': dict(min_occurs=1)}), None)
     op('Array(T)', lambda m: True, lambda m: Array(m), None)
     op('Array(T,wrapped=False)', lambda m: True, lambda m: Array(m, wrapped=False), None)
     op('Mandatory(T)', lambda m: True, lambda m: Mandatory(m), None)
@@ -324,6 +327,7 @@ def check_evolve(hist, o, idx, pool, cfg, V):
             if not pos_ok:
                 V('evolve', 'field-position', 'after %s on %s the model %s has own fields %s' % (o['id'], pool[idx][0], lab, own))
             chain, root = derivation_chain(hist[:-1], cfg, i)
+            chain = [x for c in chain for x in (('child_attrs_all', 'child_attrs(n1)') if c == 'child_attrs_all+n1' else (c,))]
             alls = [c for c in chain if c in ('child_attrs_all', 'child_attrs_noexc')]
             if len(alls) > 1:
                 continue
